@@ -33,6 +33,7 @@ type outRec struct { // Loc-RIB path record of RibOut
 	NH   uint32   `json:"nh"`
 	Comm []string `json:"comm"`
 	OTC  uint32   `json:"otc"`
+	Aggr bool     `json:"aggr"`
 }
 
 var commByName = map[string]uint32{"noexport": types.WellKnownCommunityNoExport, "noadvertise": types.WellKnownCommunityNoAdvertise,
@@ -59,6 +60,9 @@ func (r outRec) build(v6 bool) *route.Path {
 	p := buildRibPath(ribPath{LP: r.LP, MED: r.MED, NH: r.NH, ASP: r.ASP, OID: r.OID, CL: r.CLV, OTC: r.OTC}, v6, r.EBGP,
 		addr(v6, r.Src).Ptr(), comm)
 	p.BGPPath.BGPPathA.BGPIdentifier = r.ID
+	if r.Aggr {
+		p.BGPPath.BGPPathA.Aggregator = &types.Aggregator{Address: 0x0a000009, ASN: 65001}
+	}
 	return p
 }
 
@@ -75,6 +79,7 @@ type wireRec struct {
 	Redist      bool     `json:"redist"`
 	ID          uint32   `json:"id"`
 	Src         uint32   `json:"src"`
+	Aggr        bool     `json:"aggr"`
 }
 
 func (w wireRec) key(maskRR bool) string {
@@ -108,6 +113,7 @@ func projectWire(p *route.Path, v6 bool) wireRec {
 		w.OID &^= 0x0a000000 // an ORIGINATOR_ID derived from the (embedded) source address
 	}
 	w.NH = nhNum(a.NextHop, v6)
+	w.Aggr = a.Aggregator != nil
 	if p.BGPPath.ASPath != nil {
 		for _, seg := range *p.BGPPath.ASPath {
 			w.ASP = append(w.ASP, seg.ASNs...)
